@@ -4,4 +4,5 @@ From LH Require Import Base.Bytes Model.FileIndex Model.ModulePath Model.Merge.
 Extraction "c09model.ml" extract_anchor
   merge merge_step winner vars_of least_of minimal_set multi_owner no_least gvar_eqb beats judge
   idx_run get_name_map get_pre_map calc_score bm_candidates argmax_set first_max best_set
-  merge_ws sort_paths visit_order map_shaped names_distinct bytes_ltb less_fx least_path best_match best_set_fx.
+  merge_ws sort_paths visit_order map_shaped names_distinct bytes_ltb less_fx least_path best_match best_set_fx
+  project_merge project_merge_ws project_items member_provider pick_project.
